@@ -12,7 +12,7 @@ namespace Resynth
 
 /-- front-end part of `LoopSt` -/
 structure Front where
-  pending : String
+  pending : Option String
   lexLoc : Loc
   cfg : LR.Cfg
 
@@ -79,16 +79,27 @@ theorem lineLoop_eq (env : Env) : ∀ (lines : List Bytes) (ls : LoopSt) (lno : 
 /-- everything the front end contributes to a run -/
 structure Plan where
   batches : List (List Stmt)
-  /-- `some o`: the front end stops with outcome `o` after the batches; `none`: end of input,
-  the parser accepted, the run ends with the final flush -/
+  /-- `some o`: the front end stops with outcome `o` after the batches; `none`: end of input
+  (the literal still pending in the lexer, if any, then `EOF`), the parser accepted, the run ends with
+  the final flush -/
   final : Option Outcome
 
+/-- end of input: the literal the lexer still holds (`Lex.finish`), if any, goes to the parser -/
+def feedPending (f : Front) : LR.Res LR.Cfg :=
+  match Lex.finish f.pending f.lexLoc with
+  | some t => LR.feed f.cfg t
+  | none => .ok f.cfg
+
 def planOf (src : Bytes) : Plan :=
-  let r := planLines ⟨"", Loc.nil, LR.Cfg.init⟩ 1 (splitLines src)
+  let r := planLines ⟨none, Loc.nil, LR.Cfg.init⟩ 1 (splitLines src)
   match r.2 with
   | .error o => ⟨r.1, some o⟩
   | .ok f =>
-    match LR.feed f.cfg LR.eofTok with
+    match feedPending f with
+    | .parseError => ⟨r.1, some (.failure "Parse" "" f.lexLoc)⟩
+    | .panic => ⟨r.1, some (.panic "parser")⟩
+    | .ok cfg0 =>
+    match LR.feed cfg0 LR.eofTok with
     | .parseError => ⟨r.1, some (.failure "Parse" "" f.lexLoc)⟩
     | .panic => ⟨r.1, some (.panic "parser")⟩
     | .ok cfg => ⟨r.1 ++ [cfg.takeResults.1], none⟩
@@ -140,32 +151,65 @@ theorem processFile_eq (env : Env) (budget : Option Nat) (src : Bytes) :
     processFile env budget src = execPlan env budget (planOf src) := by
   unfold processFile execPlan execFrom planOf
   simp only [header_write, Bool.not_true, Bool.false_eq_true, if_false, lineLoop_eq, st0, wr0_eq]
-  generalize planLines ⟨"", Loc.nil, LR.Cfg.init⟩ 1 (splitLines src) = r
+  generalize planLines ⟨none, Loc.nil, LR.Cfg.init⟩ 1 (splitLines src) = r
   obtain ⟨bs, fin⟩ := r
   cases fin with
   | error o =>
     simp only []
     cases runBatches env _ bs <;> simp
   | ok f =>
+    obtain ⟨pend, floc, fcfg⟩ := f
     simp only []
-    cases hfeed : LR.feed f.cfg LR.eofTok with
+    -- the parser after the end-of-input flush, in the form it has inside `processFile`
+    have hfin : ∀ fp, feedPending ⟨pend, floc, fcfg⟩ = fp →
+        (match pend with
+          | some p => LR.feed fcfg ⟨.strLit, p, floc⟩
+          | none => .ok fcfg) = fp := by
+      intro fp h; cases pend <;> exact h
+    cases hpend : feedPending ⟨pend, floc, fcfg⟩ with
+    | parseError =>
+      have h' := hfin _ hpend
+      simp only []
+      cases pend with
+      | none => cases h'
+      | some p =>
+        simp only [] at h'
+        cases runBatches env _ bs <;> simp [Lex.finish, h']
+    | panic =>
+      have h' := hfin _ hpend
+      simp only []
+      cases pend with
+      | none => cases h'
+      | some p =>
+        simp only [] at h'
+        cases runBatches env _ bs <;> simp [Lex.finish, h']
+    | ok cfg0 =>
+    have h' := hfin _ hpend
+    have hL : (∃ p, pend = some p ∧ LR.feed fcfg ⟨.strLit, p, floc⟩ = .ok cfg0) ∨ (pend = none ∧ fcfg = cfg0) := by
+      cases pend with
+      | none => right; simpa using h'
+      | some p => left; exact ⟨p, rfl, h'⟩
+    clear h' hfin hpend
+    simp only []
+    cases hfeed : LR.feed cfg0 LR.eofTok with
     | parseError =>
       simp only []
-      cases runBatches env _ bs <;> simp [hfeed]
+      rcases hL with ⟨p, rfl, h'⟩ | ⟨rfl, rfl⟩ <;> cases runBatches env _ bs <;> simp [Lex.finish, *]
     | panic =>
       simp only []
-      cases runBatches env _ bs <;> simp [hfeed]
+      rcases hL with ⟨p, rfl, h'⟩ | ⟨rfl, rfl⟩ <;> cases runBatches env _ bs <;> simp [Lex.finish, *]
     | ok cfg =>
       simp only [runBatches_append]
       cases hb : runBatches env _ bs with
       | error r => simp
       | ok st =>
-        simp only [hfeed, runStmts, runBatches]
-        cases addStmts env st cfg.takeResults.1 with
-        | err e l => simp
-        | panic x => simp
-        | ok st' =>
-          simp only []
+        rcases hL with ⟨p, rfl, h'⟩ | ⟨rfl, rfl⟩ <;>
+        · simp only [Lex.finish, Option.map_some, Option.map_none, *, runStmts, runBatches]
+          cases addStmts env st cfg.takeResults.1 with
+          | err e l => simp
+          | panic x => simp
+          | ok st' =>
+            simp only []
 
 /-! ## invariants along a run -/
 
@@ -286,14 +330,19 @@ theorem planLines_error_ne_success : ∀ (lines : List Bytes) (f : Front) (lno :
 theorem planOf_final (src : Bytes) : (planOf src).final ≠ some .success := by
   unfold planOf
   simp only []
-  cases h : (planLines ⟨"", Loc.nil, LR.Cfg.init⟩ 1 (splitLines src)).2 with
+  cases h : (planLines ⟨none, Loc.nil, LR.Cfg.init⟩ 1 (splitLines src)).2 with
   | error o =>
     simp only []
     have := planLines_error_ne_success _ _ _ o h
     intro hc; cases hc; exact this rfl
   | ok f =>
     simp only []
-    cases LR.feed f.cfg LR.eofTok <;> simp
+    cases feedPending f with
+    | parseError => simp
+    | panic => simp
+    | ok cfg0 =>
+      simp only []
+      cases LR.feed cfg0 LR.eofTok <;> simp
 
 /-! ## a successful run executed all statements of all batches, in order -/
 
